@@ -10,6 +10,7 @@
 -/
 import TmVerif.Sched.Upd
 import TmVerif.Sched.Skel
+import TmVerif.Sched.CurOk
 
 namespace TmVerif.Sched
 
@@ -108,7 +109,7 @@ inductive LPrim : Lab → Cell → Cell → Prop
       c.grp? g = some grp → k ≥ grp.count →
       LPrim (.forgetIdentity a.id) c (c.setApp { a with identity := none })
   /-- spread cursors only (the `Bucket.put` search) -/
-  | tree {c t} : t.skel = c.tree.skel → LPrim .tree c { c with tree := t }
+  | tree {c t} : t.skel = c.tree.skel → (CurOk c.tree → CurOk t) → LPrim .tree c { c with tree := t }
   | clearEv {c} : LPrim .clearEv c { c with apps := c.apps.map (fun a => { a with evFrom := none }) }
 
 /-- Unlabelled primitive. -/
